@@ -23,7 +23,7 @@ def run(ctx):
     cases = []
     n = 400 if ctx.quick else 6000
     for _ in range(n):
-        depth = rng.choice([2, 3])
+        depth = rng.choice([2, 3, 3, 4])          # depth 4: flattened ids / shapes with three and four components, unflattened level by level
         t = canonical_tree(rng, depth)
         base = {"kind": "transform", "tree": t, "depth": depth, "shape": [rng.randint(4, 6) for _ in range(depth)], "auth": rng.choice([1, 1, 0]),
                 "dflt": rng.choice([0, 0, 7]), "fmts": [rng.choice(["C", "U"]) for _ in range(depth)], "mutable": rng.choice([0, 1])}
